@@ -1086,6 +1086,15 @@ func (p *Policy) validURL(rawurl string) (string, bool) {
 			return "", false
 		}
 
+		// The same can happen behind a scheme ("http:/%2Fhost:x/<" is written
+		// back as "http://host:x/%3C", which no longer parses), and in general:
+		// what is emitted has to parse again, to the same URL with the same
+		// scheme and host, or it is not a URL this function has validated.
+		if u2, err := url.Parse(u.String()); err != nil ||
+			u2.String() != u.String() || u2.Scheme != u.Scheme || u2.Host != u.Host {
+			return "", false
+		}
+
 		if u.Scheme != "" {
 			urlPolicies, ok := p.allowURLSchemes[u.Scheme]
 			if !ok {
